@@ -5,7 +5,8 @@ with thresholds so small that no split truncates.  Wrapped (module attributes, n
 `tdvp.split_mps_tensor`, `tdvp.merge_mps_tensors`, `digital_tjm.two_site_tdvp`, `digital_tjm.apply_window`,
 `digital_tjm.construct_generator_mpo`.  Recorded per call:
 
-* the generator placement and the window (`gplan` head: first last fgen sgen lo hi n p);
+* the generator placement, the window and the centre shifts `apply_window` performs
+  (`gplan` head: first last fgen sgen lo hi n p sh:<sites shifted through>);
 * the step trace of the sweep: merges, forward pair steps, splits, backward site steps, each with its site index and `dt`,
   and for every `update_site` call the *measured role*: are the blocks handed to it identities, is the (merged) MPO tensor
   `1 ⊗ A`, `A ⊗ B`, `B ⊗ 1` resp. `A`, `B` for the gate's generator factors — the hypotheses of the theorems
@@ -117,7 +118,22 @@ def observe_gate(job):
         return out
 
     def w_win(st, mpo, first, last, wsize):
-        out = o_win(st, mpo, first, last, wsize)
+        # the centre shifts of `apply_window` (class attribute wrapped only while apply_window runs)
+        from mqt.yaqs.core.data_structures.networks import MPS
+
+        o_shift = MPS.shift_orthogonality_center_right
+        shifts = []
+
+        def w_shift(self, current_orthogonality_center, *a_, **k_):
+            shifts.append(int(current_orthogonality_center))
+            return o_shift(self, current_orthogonality_center, *a_, **k_)
+
+        MPS.shift_orthogonality_center_right = w_shift
+        try:
+            out = o_win(st, mpo, first, last, wsize)
+        finally:
+            MPS.shift_orthogonality_center_right = o_shift
+        cap["shifts"] = shifts
         cap["win"] = (int(out[2][0]), int(out[2][1]), int(out[0].length), int(wsize))
         return out
 
@@ -201,7 +217,8 @@ def observe_gate(job):
             snaps.append(e["snap"])
     after = dense(state.tensors)
     out.update({
-        "head": [first, last, kf, kl, lo, hi, n, first - lo],
+        "head": [first, last, kf, kl, lo, hi, n, first - lo,
+                 "sh:" + (",".join(str(i) for i in cap.get("shifts", [])) or "-")],
         "toks": toks, "roles": roles, "ret": [int(ret[0]), int(ret[1])] if ret is not None else None,
         "wsize": wsize, "sites": sites,
         "splits": [[e["kept"], e["full"]] for e in ev if e["k"] == "x"],
